@@ -7,8 +7,8 @@ Local Open Scope N_scope.
 Definition join (strs : list (list N)) : bytes := concat (map (fun s => s ++ [0]) strs).
 
 Lemma split_nul_join bs : forall cur strs,
-  split_nul cur bs = Ok strs -> Forall (fun c => c < 128) cur ->
-  rev cur ++ bs = join strs /\ Forall (Forall (fun c => c < 128)) strs.
+  split_nul cur bs = Ok strs -> Forall (fun c => 0 < c /\ c < 128) cur ->
+  rev cur ++ bs = join strs /\ Forall (Forall (fun c => 0 < c /\ c < 128)) strs.
 Proof.
   induction bs as [|b r IH]; intros cur strs H Hc; simpl in H.
   - destruct cur; [|discriminate]. inversion H; subst. split; [reflexivity | constructor].
@@ -20,7 +20,7 @@ Proof.
       split.
       * unfold join in *. simpl. rewrite <- Hj. rewrite <- app_assoc. reflexivity.
       * constructor; [apply Forall_rev; assumption | assumption].
-    + destruct (IH (b :: cur) strs H) as [Hj Ha]; [constructor; assumption|].
+    + destruct (IH (b :: cur) strs H) as [Hj Ha]; [constructor; [apply N.eqb_neq in E0; lia | assumption]|].
       split; [|assumption]. simpl in Hj. rewrite <- app_assoc in Hj. exact Hj.
 Qed.
 
@@ -31,11 +31,52 @@ Proof.
 Qed.
 
 Lemma enc_strings_join strs :
-  Forall (Forall (fun c => c < 128)) strs -> enc_strings strs = Ok (join strs).
+  Forall (Forall (fun c => 0 < c /\ c < 128)) strs -> enc_strings strs = Ok (join strs).
 Proof.
   induction 1 as [|s r Hs Hr IH]; [reflexivity|].
-  simpl. unfold enc_string. rewrite utf8_encode_ascii by (apply ascii_okb_of_Forall; assumption).
-  simpl. rewrite firstn_all. rewrite IH. reflexivity.
+  simpl. unfold enc_string.
+  rewrite utf8_encode_ascii by (apply ascii_okb_of_Forall; eapply Forall_impl; [|exact Hs]; simpl; tauto).
+  simpl. rewrite Nat.eqb_refl. simpl.
+  assert (existsb (N.eqb 0) s = false) as ->.
+  { apply not_true_is_false. intros E. apply existsb_exists in E as (x & Hx & Ex). apply N.eqb_eq in Ex. subst x.
+    rewrite Forall_forall in Hs. specialize (Hs 0 Hx). lia. }
+  rewrite firstn_all. rewrite IH. reflexivity.
+Qed.
+
+(* ... and what is not NUL-free 7-bit text is refused: no table is written (before the fix cee72c9 the first len(s)
+   bytes of the UTF-8 form were written: "é" became the lone byte C3) *)
+Lemma enc_string_refuses s :
+  (exists c, In c s /\ (c = 0 \/ 128 <= c)) -> exists e, enc_string s = Raise e.
+Proof.
+  intros (c & Hin & Hc). unfold enc_string. destruct (utf8_encode s) as [u|e] eqn:Eu; [|simpl; eauto]. simpl.
+  destruct (negb (Nat.eqb (length u) (length s)) || existsb (N.eqb 0) u) eqn:E; [eauto|].
+  exfalso. apply orb_false_iff in E as [E1 E2]. apply negb_false_iff in E1. apply Nat.eqb_eq in E1.
+  (* every code point encodes to at least one byte, and to exactly one only below 128, where the byte is the code point *)
+  assert (forall t v, utf8_encode t = Ok v -> length v = length t -> v = t /\ Forall (fun x => x < 128) t) as K.
+  { induction t as [|x t IH]; intros v Hv Hl; simpl in Hv.
+    - inversion Hv; subst. split; [reflexivity | constructor].
+    - inv_bind Hv as a Ha Hk. inv_bind Hk as b Hb Hk2. inversion Hk2; subst v. clear Hk2.
+      assert (length t <= length b)%nat as Hge.
+      { clear -Hb. revert b Hb. induction t as [|y t IHt]; intros b Hb; simpl in *; [lia|].
+        inv_bind Hb as a1 Ha1 Hk. inv_bind Hk as b1 Hb1 Hk2. inversion Hk2; subst b. rewrite app_length.
+        specialize (IHt _ Hb1).
+        assert (1 <= length a1)%nat; [|lia].
+        unfold utf8_encode_cp in Ha1.
+        repeat match type of Ha1 with (if ?c then _ else _) = _ => destruct c end; inversion Ha1; simpl; lia. }
+      rewrite app_length in Hl. simpl in Hl.
+      assert (1 <= length a)%nat as Ha1.
+      { unfold utf8_encode_cp in Ha.
+        repeat match type of Ha with (if ?c then _ else _) = _ => destruct c end; inversion Ha; simpl; lia. }
+      assert (length a = 1 /\ length b = length t)%nat as [La Lb] by lia.
+      destruct (IH b Hb Lb) as [-> Hall].
+      unfold utf8_encode_cp in Ha.
+      destruct (x <? 128) eqn:Ex.
+      + inversion Ha; subst a. split; [reflexivity|]. constructor; [apply N.ltb_lt; assumption | assumption].
+      + repeat match type of Ha with (if ?c then _ else _) = _ => destruct c end; inversion Ha; subst a; simpl in La; lia. }
+  destruct (K s u Eu E1) as [-> Hall].
+  destruct Hc as [->|Hc].
+  - assert (existsb (N.eqb 0) s = true); [|congruence]. apply existsb_exists. exists 0. split; [assumption | reflexivity].
+  - rewrite Forall_forall in Hall. specialize (Hall c Hin). lia.
 Qed.
 
 Lemma read_offsets_roundtrip w fuel : forall n bs offs rest,
@@ -68,4 +109,24 @@ Proof.
   destruct (split_nul_join _ _ _ Hs (Forall_nil _)) as [Hj Ha]. simpl in Hj.
   rewrite Hp. simpl. rewrite He. simpl. rewrite (enc_strings_join _ Ha). simpl.
   f_equal. rewrite <- Hj. congruence.
+Qed.
+
+Lemma enc_strings_refuses strs s :
+  In s strs -> (exists c, In c s /\ (c = 0 \/ 128 <= c)) -> exists e, enc_strings strs = Raise e.
+Proof.
+  induction strs as [|x r IH]; intros Hin Hbad; [destruct Hin|]. simpl.
+  destruct (enc_string x) as [a|e] eqn:Ex; [|simpl; eauto]. simpl.
+  destruct Hin as [->|Hin].
+  - destruct (enc_string_refuses s Hbad) as [e He]. congruence.
+  - destruct (IH Hin Hbad) as [e ->]. simpl. eauto.
+Qed.
+
+(* a string table holding anything but NUL-free 7-bit text is never written *)
+Theorem str_encode_refuses w m s :
+  In s (ss_strings m) -> (exists c, In c s /\ (c = 0 \/ 128 <= c)) -> exists e, str_encode w m = Raise e.
+Proof.
+  intros Hin Hbad. unfold str_encode.
+  destruct (pack w (ss_num m)); [|simpl; eauto]. simpl.
+  destruct (enc_offsets w (ss_num m) (ss_offsets m)); [|simpl; eauto]. simpl.
+  destruct (enc_strings_refuses _ _ Hin Hbad) as [e ->]. simpl. eauto.
 Qed.
